@@ -47,19 +47,20 @@ RULE = ("exhaustive: all emulsions of <=4 droplets on a 3-point half-integer lat
         "random: up to 12 droplets, d=1..3, every grid kind; non-trivial = at least one pair closer than min_distance "
         "(something is removed or a tie is resolved); distinct by the full input specification")
 
-# new inputs on which the UNCHANGED /repo fails the property (reported in the evidence notes, not judged); see the audit
-# report.  Entries: stream-independent predicates over a spec, by name.
-SUSPECTED: list[str] = [
-    # Emulsion.get_neighbor_distances raises TypeError for an emulsion that mixes droplet classes (it reads positions and radii
-    # through Emulsion.data, which refuses mixed classes), while the constructor, get_pairwise_distances, overlaps and
-    # remove_overlapping accept such an emulsion.  Mixed emulsions are generated (cls = "mixed"); everything except the
-    # nearest-neighbour part is judged on them.
-    "mixed_class_neighbor_distances",
-    # Emulsion.from_random(num, grid, ..., remove_overlapping=True) calls remove_overlapping() WITHOUT the grid it was given:
-    # on a grid with periodic axes droplets that overlap through the periodic boundary (overlaps(grid=grid) is True) are
-    # kept.  Outside the property text (which only speaks of region and radius range); counted per run, not judged.
-    "from_random_ignores_grid_metric",
-]
+# new inputs on which the UNCHANGED /repo fails the property and that await a decision (reported in the evidence notes, not
+# judged).  Empty: the one former entry (get_neighbor_distances raised TypeError on emulsions that mix droplet classes) was
+# confirmed as defect F37 and repaired in /repo 7e05325; mixed emulsions are judged in full since then.
+SUSPECTED: list[str] = []
+
+# behaviour that was noticed through the new inputs but lies OUTSIDE the property text: named, counted per run in the evidence
+# (histogram key observed_outside_property), never judged.
+OBSERVED_OUTSIDE_PROPERTY = {
+    "from_random_ignores_grid_metric":
+        "Emulsion.from_random(num, grid, ..., remove_overlapping=True) calls remove_overlapping() WITHOUT the grid it was given: on "
+        "a grid with periodic axes droplets that overlap through the periodic boundary (overlaps(grid=grid) is True) are kept.  "
+        "The property text speaks only of region and radius range for random emulsions, so this is not a C10 failure "
+        "(replay: CartesianGrid([(0, 3)], 6, periodic=True), from_random(4, grid, 0.5, rng=default_rng(5))).",
+}
 
 PLAIN = {"prov": "nocopy", "cls": "spherical", "ctor": "array64", "md_type": "float", "call": "kw", "k": 0}
 PROVS = ["nocopy", "nocopy", "ctor_copy", "em_copy", "deepcopy", "pickle", "slice", "concat", "append", "shared", "queried",
@@ -236,7 +237,8 @@ def build(spec, v):
     from droplets import Emulsion
     s = math.ldexp(1.0, v["k"])
     dim = spec["dim"]
-    classes = [v["cls"] if v["cls"] != "mixed" else ("spherical", "diffuse")[i % 2] for i in range(len(spec["radii"]))]
+    kinds = ("spherical", "diffuse") if dim == 1 else ("spherical", "diffuse", "perturbed")  # "mixed": classes in turn
+    classes = [v["cls"] if v["cls"] != "mixed" else kinds[i % len(kinds)] for i in range(len(spec["radii"]))]
     caller = [_droplet(c, dim, [x * s for x in p], r * s, v["ctor"], s) for c, p, r in zip(classes, spec["positions"], spec["radii"])]
     prov, other = v["prov"], None
     if prov == "ctor_copy":
@@ -265,9 +267,7 @@ def build(spec, v):
         em, other = Emulsion(caller, copy=False), Emulsion(caller, copy=False)
     elif prov == "queried":
         em = Emulsion(caller, copy=False)
-        _ = em.get_pairwise_distances()
-        if v["cls"] != "mixed":
-            _ = em.get_neighbor_distances()
+        _ = em.get_pairwise_distances(), em.get_neighbor_distances()
         if len(em) and v["cls"] != "mixed":  # (the data array of an empty / a mixed emulsion is documented to raise)
             _ = em.data
         em.remove_small(-1.0 * s)
@@ -383,24 +383,17 @@ def _oracle(spec, info):
     # nearest neighbours: always the non-periodic metric (documented); compared with the matrix of that metric
     E0 = M0 if grid is None else em.get_pairwise_distances(subtract_radius=False)
     E1 = M1 if grid is None else em.get_pairwise_distances(subtract_radius=True)
-    try:
-        nd = em.get_neighbor_distances() if v["call"] == "default" else em.get_neighbor_distances(subtract_radius=False)
-        nds = em.get_neighbor_distances(True) if v["call"] == "pos" else em.get_neighbor_distances(subtract_radius=True)
-        judged = [("neighbour distances", nd), ("neighbour surface distances", nds)]
-    except TypeError:
-        if len({type(d) for d in members}) > 1 and "mixed_class_neighbor_distances" in SUSPECTED:
-            info["suspected"] = "mixed_class_neighbor_distances"  # reported, not judged
-            judged = []
-        else:
-            raise
-    for name, a in judged:
+    nd = em.get_neighbor_distances() if v["call"] == "default" else em.get_neighbor_distances(subtract_radius=False)
+    nds = em.get_neighbor_distances(True) if v["call"] == "pos" else em.get_neighbor_distances(subtract_radius=True)
+    info["classes"] = len({type(d) for d in members})
+    for name, a in (("neighbour distances", nd), ("neighbour surface distances", nds)):
         if not (isinstance(a, np.ndarray) and a.shape == (n,) and a.dtype.kind == "f"):
             return f"{name} are not a real vector of length {n}: {type(a).__name__} {getattr(a, 'shape', None)} {getattr(a, 'dtype', None)}"
         if n == 1 and math.isfinite(a[0]):
             return f"{name} of a single droplet are finite ({a[0]})"
         if n >= 2 and not np.isfinite(a).all():
             return f"{name} are not finite"
-    if n >= 2 and judged:
+    if n >= 2:
         if not _is_real_matrix(E0, n) or not _is_real_matrix(E1, n):
             return "Euclidean distance matrix is not a finite real array"
         for i in range(n):
@@ -701,6 +694,11 @@ def gen_coincident(ctx, rng):
                         rad.insert(rng.randrange(len(rad) + 1), rng.choice([0.0, 0.25, 0.5]))
                     gs = rng.choice([None, None, None, legacy_grid_spec(dim, True), legacy_grid_spec(dim, "mixed")])
                     out.append(mk("coin", pos, rad, md, dim, gs, rand_variant(rng, 0.6), group=g, radii_pattern=pat))
+                    if md == 0.0:
+                        # the same group inside an emulsion that mixes droplet classes (defects F30 + F37), no grid, so that
+                        # both neighbour queries are compared with the matrix of the very same metric
+                        var = {**PLAIN, "cls": "mixed", "call": rng.choice(CALLS), "prov": rng.choice(["nocopy", "ctor_copy", "pickle"])}
+                        out.append(mk("coin", pos, rad, md, dim, None, var, group=g, radii_pattern=pat))
     return out
 
 
@@ -857,7 +855,7 @@ def _oracle_from_random(spec, info):
         pos.append([float(x) for x in p])
         rad.append(float(r))
     info["droplets"] = {"positions": pos, "radii": rad}
-    if removing and grid is not None and any(grid.periodic) and "from_random_ignores_grid_metric" in SUSPECTED:
+    if removing and grid is not None and any(grid.periodic):  # OBSERVED_OUTSIDE_PROPERTY["from_random_ignores_grid_metric"]
         ds = list(em)
         info["periodic_overlaps_left"] = sum(bool(a.overlaps(b, grid=grid)) for a, b in itertools.combinations(ds, 2))
     if removing:
@@ -916,6 +914,9 @@ def _count_spec(ctx, spec, info):
     for p in spec["positions"]:
         groups[tuple(p)] = groups.get(tuple(p), 0) + 1
     ctx.count("largest_coincident_group", max(groups.values()) if groups else 0)
+    if "classes" in info:
+        ctx.count("droplet_classes_in_emulsion x largest_coincident_group",
+                  "%d class(es), group %s" % (info["classes"], min(max(groups.values()) if groups else 0, 3)))
     rad = spec["radii"]
     ctx.count("radius_zero_present", 0.0 in rad)
     ctx.count("radius_ties", "none" if len(set(rad)) == len(rad) else ("all_equal" if len(set(rad)) == 1 else "some"))
@@ -953,7 +954,6 @@ def check(ctx: vlib.Ctx) -> int:
     specs += gen_random(ctx, rng, ctx.scale(900, 6000))
     ro_cases, ro_meta, dist_cases = [], [], []
     fails = []
-    suspected = 0
     dist_cap = ctx.scale(2500, 12000)
     for idx, spec in enumerate(specs):
         f, info = run_spec(spec)
@@ -962,9 +962,6 @@ def check(ctx: vlib.Ctx) -> int:
         nontriv = "M1" in info and n >= 2 and bool((info["M1"] + np.diag([np.inf] * n) < info["md"]).any())
         ctx.case({k: v for k, v in spec.items() if k not in ("pos_modes",)}, nontrivial=nontriv)
         _count_spec(ctx, spec, info)
-        if info.get("suspected"):
-            suspected += 1
-            ctx.count("suspected_not_judged", info["suspected"])
         if f:
             fails.append({"what": f, "input": {"spec": spec}})
             continue
@@ -1012,7 +1009,7 @@ def check(ctx: vlib.Ctx) -> int:
             ctx.count("from_random_grid", grid_tag(spec["grid"]))
         ctx.count("from_random_radius_range", "r0=0" if spec["r0"] == 0 else ("r0=r1" if spec["r0"] == spec["r1"] else "r0<r1"))
         if "periodic_overlaps_left" in info:
-            ctx.count("suspected_not_judged", "from_random_ignores_grid_metric: overlap through the periodic boundary left"
+            ctx.count("observed_outside_property", "from_random_ignores_grid_metric: overlap through the periodic boundary left"
                       if info["periodic_overlaps_left"] else "from_random on a periodic grid: no overlap left")
         if "len" in info:
             ctx.count("from_random_returned", "num" if info["len"] == spec["num"] else "fewer")
@@ -1023,9 +1020,9 @@ def check(ctx: vlib.Ctx) -> int:
     ctx.notes.append("cylindrical / polar / spherical grids: the in-Coq distance comparison uses Model/OverlapCases.v cyl_metric / "
                      "sym_metric, i.e. py-pde 0.58.0 grid.distance(coords='cartesian') as it is (cylinder: Cartesian y wrapped with the z "
                      "period, z never wrapped = finding F19); the property oracle only uses grid.distance itself as 'the same metric'")
-    ctx.notes.append(f"SUSPECTED (reported, not judged): {SUSPECTED or 'none'}; "
-                     f"mixed-class emulsions whose nearest-neighbour part was not judged: {suspected} "
-                     "(everything else is judged on them); see histogram key suspected_not_judged")
+    ctx.notes.append(f"SUSPECTED (reported, not judged): {SUSPECTED or 'none'}")
+    for name, why in OBSERVED_OUTSIDE_PROPERTY.items():
+        ctx.notes.append(f"OBSERVED_OUTSIDE_PROPERTY (counted under histogram key observed_outside_property, not judged) {name}: {why}")
     for f in fails[:3]:
         ctx.violations.append({**f, "found": True, "broken": ctx.broken[:3]})
     return vlib.finish(ctx, "", TRUSTED, ASSUME, RULE, exhaustive=not ctx.quick)
